@@ -38,6 +38,14 @@ func scaleCases(tier string) []scalekit.Case {
 	for n := 0; n <= 20; n++ {
 		out = append(out, scalekit.Case{Shape: "uses-substatements", N: n})
 	}
+	// n sibling scopes each defining a grouping of one name and using it from inside, crossed with how
+	// the uses statements spell the name (variant bits: 1 own prefix, 2 a top-level grouping of that name
+	// exists as well, 4 written in a submodule, 8 every second scope spells it the other way)
+	for n := 1; n <= 6; n++ {
+		for v := 0; v < 16; v++ {
+			out = append(out, scalekit.Case{Shape: "same-named-groupings-in-sibling-scopes", N: n, V: v})
+		}
+	}
 	return out
 }
 
@@ -165,6 +173,56 @@ func checkScale(cs scalekit.Case) scalekit.Verdict {
 					return scalekit.Bad("deviation-of-one-copy-lost", "[x y z added]", fmt.Sprint(c.Dir["gll"].Default))
 				case deviated && x.root == b && c.Dir["gc"].Dir["gli"].ListAttr.MaxElements != 2:
 					return scalekit.Bad("deviation-of-one-copy-lost", "max-elements 2", fmt.Sprint(c.Dir["gc"].Dir["gli"].ListAttr.MaxElements))
+				}
+			}
+		}
+	case "same-named-groupings-in-sibling-scopes":
+		own, top, sub, mixed := cs.V&1 != 0, cs.V&2 != 0, cs.V&4 != 0, cs.V&8 != 0
+		var body strings.Builder
+		if top {
+			body.WriteString(` grouping fields { leaf from-top { type string; } } container usetop { uses fields; }`)
+		}
+		for i := 0; i < cs.N; i++ {
+			spell := "fields"
+			if own != (mixed && i%2 == 1) {
+				spell = "lib:fields"
+			}
+			fmt.Fprintf(&body, ` container scope%d { grouping fields { leaf from-scope%d { type int8; } leaf common { type string; } } container inner { uses %s; } list l { key k; leaf k { type string; } uses %s; } }`, i, i, spell, spell)
+		}
+		files := []dump.File{{Name: "lib.yang", Text: `module lib { namespace "urn:lib"; prefix lib;` + body.String() + ` }`}}
+		if sub {
+			files = []dump.File{{Name: "lib.yang", Text: `module lib { namespace "urn:lib"; prefix lib; include libsub; }`},
+				{Name: "libsub.yang", Text: `submodule libsub { belongs-to lib { prefix lib; }` + body.String() + ` }`}}
+		}
+		for _, rev := range []bool{false, true} {
+			ms, errs, lerr := scalekit.Load(files, rev)
+			if lerr != nil || len(errs) > 0 {
+				return scalekit.Bad("spurious-errors", "loads and processes", fmt.Sprint(lerr, dump.Errors(errs)))
+			}
+			root := yang.ToEntry(ms.Modules["lib"])
+			names := func(e *yang.Entry) string {
+				var ks []string
+				if e != nil {
+					for k := range e.Dir {
+						ks = append(ks, k)
+					}
+				}
+				sortStrings(ks)
+				return strings.Join(ks, " ")
+			}
+			if top {
+				if got := names(root.Dir["usetop"]); got != "from-top" {
+					return scalekit.Bad("uses-binds-a-grouping-of-another-scope", "usetop: from-top", got)
+				}
+			}
+			for i := 0; i < cs.N; i++ {
+				sc := root.Dir[fmt.Sprintf("scope%d", i)]
+				want := fmt.Sprintf("common from-scope%d", i)
+				if got := names(scalekit.Down(sc, "inner")); got != want {
+					return scalekit.Bad("uses-binds-a-grouping-of-another-scope", fmt.Sprintf("scope%d/inner: %s", i, want), got)
+				}
+				if got := names(scalekit.Down(sc, "l")); got != want+" k" {
+					return scalekit.Bad("uses-binds-a-grouping-of-another-scope", fmt.Sprintf("scope%d/l: %s k", i, want), got)
 				}
 			}
 		}
